@@ -153,16 +153,40 @@ where
 }
 
 /// Parse all `#[serde(..)]` attributes from the given slice.
-pub fn parse_serde_attrs<'a, A>(attrs: &'a [Attribute]) -> Serde<A>
+///
+/// Every comma-separated entry of a list is parsed on its own, so that an entry `ts-rs` cannot
+/// make sense of (e.g. `rename(serialize = "..")`, or an unknown flag followed by further
+/// entries) is ignored by itself instead of taking the supported entries next to it with it.
+pub fn parse_serde_attrs<A>(attrs: &[Attribute]) -> Serde<A>
 where
     A: Attr,
-    Serde<A>: TryFrom<&'a Attribute, Error = Error>,
+    Serde<A>: syn::parse::Parse,
 {
     attrs
         .iter()
         .filter(|a| a.path().is_ident("serde"))
-        .flat_map(|attr| Serde::<A>::try_from(attr).ok())
+        .flat_map(serde_entries)
+        .flat_map(|entry| syn::parse2::<Serde<A>>(entry).ok())
         .fold(Serde::<A>::default(), |acc, cur| acc.merge(cur))
+}
+
+/// Splits the tokens of `#[serde(a, b = "..", c(..))]` at its top-level commas.
+fn serde_entries(attr: &Attribute) -> Vec<TokenStream> {
+    let syn::Meta::List(list) = &attr.meta else {
+        return Vec::new();
+    };
+
+    let mut entries = vec![TokenStream::new()];
+    for tt in list.tokens.clone() {
+        match tt {
+            proc_macro2::TokenTree::Punct(ref p) if p.as_char() == ',' => {
+                entries.push(TokenStream::new())
+            }
+            tt => entries.last_mut().unwrap().extend([tt]),
+        }
+    }
+    entries.retain(|entry| !entry.is_empty());
+    entries
 }
 
 /// Return doc comments parsed and formatted as JSDoc.
